@@ -669,7 +669,22 @@ def _judge_alternative_reducer(facts, ft, root, ctx, e, t, selfv, dimv, binds):
             break
         hops += 1
     if var_of(d0) != dimv:
-        return False, "a return path of flatten_to builds its result with dimensions other than the target parameter: %s" % show(dims_e)[:80]
+        # `if let [a, b] = *dimensions { .. Array::from((vec![a, b], ..)) }`: the target's elements re-assembled in order
+        from .repr_rules import vec_literal_elems as _vle
+        els = _vle(d0) if isinstance(d0, dict) else None
+        bound = None
+        for cond, truth in path_facts(ctx):
+            cnd = strip(cond)
+            if truth and cnd.get("k") == "Let" and strip(cnd["pat"]).get("k") == "Slice" and cnd["pat"].get("slice") is None:
+                sc = peel(cnd["e"])
+                if var_of(sc) == dimv:
+                    bound = [q.get("v") for q in (cnd["pat"].get("prefix") or []) + (cnd["pat"].get("suffix") or [])]
+        if els is not None and bound is not None and [var_of(x) for x in els] == bound:
+            pass        # the result's dimensions are the target's, element by element
+        elif any(x.get("k") in ("VarRef", "UpvarRef") and x["v"] == dimv for x in walk(dims_e)) or bound is not None:
+            return True, ("flatten_to has a return path that builds its result directly; how its dimensions (`%s`) derive from the target is not read" % show(dims_e)[:60])
+        else:
+            return False, "a return path of flatten_to builds its result with dimensions other than the target parameter: %s" % show(dims_e)[:80]
     # ---- how the target dimensions are read on this path: its guards and the branch that ends in this return
     SYM_TERMINALS = ("len", "product", "sum", "count", "is_empty")
     PASS = ("iter", "into_iter", "copied", "cloned", "deref", "as_slice", "as_ref", "borrow", "to_vec", "to_owned", "clone")
